@@ -4,9 +4,12 @@ pub mod collect;
 pub mod product;
 pub mod sum;
 use crate::{
-    self as simplesl, Error, ExecError,
+    self as simplesl, BinOperator, Error, ExecError,
     instruction::{
-        Exec, ExecResult, Instruction, InstructionWithStr, Recreate, local_variable::LocalVariables,
+        BinOperation, Exec, ExecResult, Instruction, InstructionWithStr, Recreate,
+        control_flow::{Match, MatchArm},
+        local_variable::{LocalVariable, LocalVariables},
+        tuple::Tuple,
     },
     interpreter::Interpreter,
     variable::{ReturnType, Type, Variable},
@@ -14,6 +17,57 @@ use crate::{
 use pest::iterators::Pair;
 use simplesl_macros::var_type;
 use simplesl_parser::Rule;
+
+/// `reducer(iterator)` for the reducer whose iterator type the static type of `iterator`
+/// admits. The choice is made here, from the static type: the type an iterator value carries at
+/// run time (`[]~` is `() -> (bool, !)`) and the type left after `recreate` may match every
+/// reducer. When the static type admits several reducers, a `match` on the iterator's type
+/// restricted to those reducers is planted.
+fn plant(iterator: InstructionWithStr, reducers: Vec<(Type, Variable)>) -> Instruction {
+    fn call(reducer: Variable, iterator: InstructionWithStr) -> Instruction {
+        BinOperation {
+            lhs: reducer.into(),
+            rhs: Tuple {
+                elements: [iterator].into(),
+            }
+            .into(),
+            op: BinOperator::FunctionCall,
+        }
+        .into()
+    }
+    let static_type = iterator.return_type();
+    let mut admitted: Vec<(Type, Variable)> = reducers
+        .iter()
+        .filter(|(iter_type, _)| iter_type.matches(&static_type))
+        .cloned()
+        .collect();
+    if admitted.len() < 2 {
+        let (_, reducer) = admitted.pop().unwrap_or_else(|| reducers[0].clone());
+        return call(reducer, iterator);
+    }
+    let ident: std::sync::Arc<str> = "iter".into();
+    let arms = admitted
+        .into_iter()
+        .map(|(var_type, reducer)| MatchArm::Type {
+            ident: ident.clone(),
+            instruction: InstructionWithStr {
+                instruction: call(
+                    reducer,
+                    InstructionWithStr {
+                        instruction: Instruction::LocalVariable(
+                            ident.clone(),
+                            LocalVariable::Other(var_type.clone()),
+                        ),
+                        str: ident.clone(),
+                    },
+                ),
+                str: iterator.str.clone(),
+            },
+            var_type,
+        })
+        .collect();
+    Match::new(iterator, arms).into()
+}
 
 #[derive(Debug)]
 pub struct Reduce {
